@@ -84,6 +84,10 @@ fn view(i: usize, n: usize, rng: &mut Rng) -> V {
 /// exact value of a windowed view after the last element of `tail` (tail long enough to contain
 /// the window and whatever a hold refers to)
 fn exact_windowed(k: &Kind, tail: &[f64]) -> Option<f64> {
+    // every reference evaluation stands alone (this monitor drives the code at f64 / f32 only and
+    // keeps no exact-scalar handle between checks): release the exact scalar's arena, which
+    // otherwise grows over the thousands of checks of one long trial to gigabytes per thread
+    crate::xq::reset();
     let xq: Vec<Xq> = tail.iter().map(|x| Xq::of(*x)).collect();
     let t = xq.len() - 1;
     let ex = match *k {
